@@ -169,10 +169,17 @@ func c17Elevators(maxLen int) Harness {
 		policy := policies[c.Free("policy", 3)]
 		useStation := c.Free("inform_using_station_ids", 2) == 1
 		n := c.Free("elevator_alerts", maxLen+1)
+		// station ids that themselves begin with a direction letter and share their digits (real ones:
+		// Sea Beach N02-N10, Franklin shuttle S01-S04)
+		directionLetterStations := c.Free("stations", 2) == 1
 		var seq []elevAlert
 		var ids []string
 		for i := 0; i < n; i++ {
 			e := elevFromIndex(c.Free(fmt.Sprintf("alert[%d]", i), 12))
+			if directionLetterStations {
+				e.station = map[string]string{"A27": "N04", "E01": "S04"}[e.station]
+				c.Witness("station_id_begins_with_N_or_S")
+			}
 			seq = append(seq, e)
 			ids = append(ids, e.id())
 		}
@@ -262,6 +269,15 @@ func init() {
 	for p := 1; p <= 40; p++ {
 		c17SortOrders = append(c17SortOrders, fmt.Sprintf("MTASBWY:A:%d", p))
 		c17PrioValues = append(c17PrioValues, p)
+	}
+	// the documented format is GTFS-ID:Priority; the GTFS id of an agency has one segment, that of a
+	// route two, that of a stop on a route three: the priority is what follows the last colon
+	for _, sv := range []struct {
+		s string
+		v int
+	}{{"MTASBWY:1", 1}, {"MTASBWY:3", 3}, {"MTASBWY:22", 22}, {"MTASBWY:A:A27:1", 1}, {"MTASBWY:A:A27:3", 3}, {"MTABC:BX12:503412:22", 22}} {
+		c17SortOrders = append(c17SortOrders, sv.s)
+		c17PrioValues = append(c17PrioValues, sv.v)
 	}
 	for _, s := range []string{"MTASBWY:A:0", "MTASBWY:A:41", "MTASBWY:A:99", "MTASBWY:A:x", "nocolon", ""} {
 		c17SortOrders = append(c17SortOrders, s)
@@ -521,7 +537,7 @@ func init() {
 	register(&Check{
 		ID:    "C17",
 		Level: "model_checking",
-		Rule: "(1) all sequences with repetition of <= 3 (thorough <= 5) elevator alerts over 12 ids x position of an optional plain alert x 3 policies x station-id flag x {first parse, second parse with the same extension value}; (2) every Mercury priority 1..40 + 6 unknown/malformed/absent sort orders x second selector {none, same, DELAYS, NO_OVERNIGHT} x 3 id prefixes x Mercury alert extension x own cause/effect x skip x metadata; (3) mixed feeds (2 elevator alerts, Mercury alert, plain alert, trip update) x 3 orders x all 24 option combinations; fresh extension per parse; " +
+		Rule: "(1) all sequences with repetition of <= 3 (thorough <= 5) elevator alerts over 12 ids (stations A27 / E01, or N04 / S04 whose ids begin with a direction letter) x position of an optional plain alert x 3 policies x station-id flag x {first parse, second parse with the same extension value}; (2) every Mercury priority 1..40 (route-level sort orders) + agency-level and stop-level sort orders (one and three id segments) + 6 unknown/malformed/absent sort orders x second selector {none, same, DELAYS, NO_OVERNIGHT} x 3 id prefixes x Mercury alert extension x own cause/effect x skip x metadata; (3) mixed feeds (2 elevator alerts, Mercury alert, plain alert, trip update) x 3 orders x all 24 option combinations; fresh extension per parse; " +
 			"non-trivial = distinct (message, options); oracle = reference grouping / tables + differential against the extension-free parse",
 		Assumptions: []string{"metadata is expected iff requested and the alert carries the Mercury alert extension", "with several different priorities in one alert the effect must be that of one of them (which one is unspecified); such an alert may be dropped when any of them is a timetabled no-service priority", "TZ=UTC so that the metadata JSON is reproducible"},
 		Scenarios: func(tier string) []*Scenario {
